@@ -127,6 +127,24 @@ def _is_null(instance, name):
             return False
 
 
+def _is_null_value(value, type_name):
+    '''
+    Determine if a *value* of an attribute with a specific *type name* 
+    is null.
+    '''
+    if value is None:
+        return True
+    
+    type_name = (type_name or '').upper()
+    if type_name == 'UNIQUE_ID':
+        return value == 0
+    
+    elif type_name == 'STRING':
+        return value == ''
+    
+    return False
+
+
 def apply_query_operators(iterable, ops):
     '''
     Apply a series of query operators to a sequence of instances, e.g.
@@ -616,6 +634,12 @@ class MetaClass(object):
                 kwargs[key] = referential_attributes[value]
             
             if not kwargs:
+                continue
+            
+            # null referential values do not refer to anything
+            if any(_is_null_value(referential_attributes[name], 
+                                  self.attribute_type(name))
+                   for name in link.key_map.values()):
                 continue
             
             for other_inst in link.to_metaclass.query(kwargs):
